@@ -117,3 +117,53 @@ Proof.
               Hhint Hpl Hden HPL Hsr) as (d1 & k2 & ev2 & Ho & HL1 & Hk2 & _).
   exists d1, k2, ev2. auto.
 Qed.
+
+(* ---- a crash inside the removal of a left-over merge directory ------------------------------------ *)
+(* Merge removes the finished-marker of a left-over directory first, then the directory.  os.RemoveAll
+   unlinks entry by entry: whichever entries are already gone when the process dies, what is left has no
+   marker and is ignored by Open (crash_during_merge applies to it). *)
+From KV Require Import Crash.
+
+Lemma remove_marker_clears s : fs_marker (fs_apply s (EvRemove MMarker)) = None.
+Proof. reflexivity. Qed.
+
+Lemma partial_removal_is_ignored s gone m :
+  fs_marker s = None ->
+  match k_merge (fs_to_disk (fs_partial_rm s gone) m) with Some md => ignored md | None => True end.
+Proof.
+  intros Hm. unfold fs_to_disk, fs_partial_rm. cbn [fs_merge fs_marker k_merge].
+  destruct (fs_merge s); [|exact I]. left. cbn [m_marker]. rewrite Hm. destruct (gone MMarker); reflexivity.
+Qed.
+
+(* the data directory is not touched by a partial removal of the merge directory *)
+Lemma partial_removal_keeps_data s gone m :
+  k_data (fs_to_disk (fs_partial_rm s gone) m) = k_data (fs_to_disk s m) /\
+  k_hint (fs_to_disk (fs_partial_rm s gone) m) = k_hint (fs_to_disk s m).
+Proof.
+  unfold fs_to_disk, fs_partial_rm. cbn [k_data k_hint fs_files fs_hints]. split.
+  - f_equal. induction (fs_files s) as [|[nm f] l IH]; [reflexivity|]. cbn [filter fst].
+    destruct nm; cbn [in_merge_dir andb negb data_files]; try (rewrite IH; reflexivity);
+      destruct (gone _); cbn [negb data_files]; exact IH.
+  - induction (fs_hints s) as [|[nm h] l IH]; [reflexivity|]. cbn [filter fst].
+    destruct nm; cbn [in_merge_dir andb negb fget fname_eqb]; try exact IH; try reflexivity;
+      destruct (gone _); cbn [negb fget fname_eqb]; try exact IH; reflexivity.
+Qed.
+
+(* Merge's events over a left-over directory: the marker is removed before the directory is *)
+Lemma merge_removes_marker_first d k order md :
+  k_merge k = Some md ->
+  exists pre post, snd (db_merge d k order) = pre ++ [EvRemove MMarker; EvRemoveAllMerge; EvMkdirMerge] ++ post /\
+                   pre = snd (db_rotate d).
+Proof.
+  intros Hm. unfold db_merge. rewrite Hm. destruct (db_rotate d) as [d1 ev1]. cbn [snd].
+  destruct (h_open (c_io (d_cfg d)) (MData 0) false lf_empty) as [a0 ev3].
+  destruct (hf_open_new (c_io (d_cfg d))) as [h0 ev4].
+  destruct (merge_files (d_cfg d) d1 order (d_active_id d1) (mkMs 0 a0 [] h0)) as [[d2 res] ev5].
+  destruct res as [m|e m].
+  - destruct (hf_close (c_io (d_cfg d)) (ms_hint m)) as [h1 ev6].
+    destruct (h_close (c_io (d_cfg d)) (MData (ms_active_id m)) (ms_active m)) as [a1 ev7].
+    destruct (ms_close_older (c_io (d_cfg d)) (ms_older m)) as [o1 ev8].
+    destruct (db_sync d2) as [d3 evS]. cbn [snd].
+    eexists ev1, _. split; [|reflexivity]. rewrite <- ?app_assoc. cbn [app]. reflexivity.
+  - cbn [snd]. eexists ev1, _. split; [|reflexivity]. rewrite <- ?app_assoc. cbn [app]. reflexivity.
+Qed.
